@@ -118,12 +118,54 @@ def check_tools(ctx):
             ctx.check(argkey(e, 0) == "src" and argkey(e, 1) == "dst", "T5-backup-nondestructive",
                       "direction:%s@%s" % (callee, e["l"].split(":")[1]), bi.name, site(bi, e),
                       "files are copied from the source into the backup", "copy direction is %s -> %s" % (argkey(e, 0), argkey(e, 1)))
-    # switch covers all file types (shared table with the collector)
-    sw, cases, dflt = c13.switch_cases(bi, "type")
-    ctx.require(sw is not None, "ldb_backup_inner: switch over the file type not found")
+    # what backup does with a file of each type (specialised per enumerator: a switch or an if-chain alike)
+    from ..rules import sequences_under, eval_tree
+    joins = sorted([(int(e["l"].split(":")[1]), e) for b, i, e in find_calls(bi, "ldb_join") if argkey(e, 0) == "dst"], key=lambda x: x[0])
+    ctx.require(len(joins) >= 1, "ldb_backup_inner: destination path construction not found")
+    first_join = joins[0][1]
+
+    def tok(e):
+        if is_call(e, "ldb_copy_file"):
+            return "copy"
+        if is_call(e, "ldb_link_file"):
+            return "link"
+        return None
+
+    def one(s2):
+        out = []
+        for x in s2:
+            if x == "<loop>":
+                break
+            out.append(x)
+        return tuple(out)
+    want = {"LDB_FILE_LOG": {(0, 0): ("copy",), (0, 1): ("copy",), (1, 0): ("copy",), (1, 1): ("copy",)},
+            "LDB_FILE_DESC": {(0, 0): ("copy",), (0, 1): ("copy",), (1, 0): ("copy",), (1, 1): ("copy",)},
+            "LDB_FILE_CURRENT": {(0, 0): ("copy",), (0, 1): ("copy",), (1, 0): ("copy",), (1, 1): ("copy",)},
+            "LDB_FILE_TABLE": {(0, 0): ("link",), (0, 1): ("link",), (1, 0): (), (1, 1): ("link",)},
+            "LDB_FILE_TEMP": {(0, 0): (), (0, 1): (), (1, 0): (), (1, 1): ()},
+            "LDB_FILE_LOCK": {(0, 0): (), (0, 1): (), (1, 0): (), (1, 1): ()},
+            "LDB_FILE_INFO": {(0, 0): ("copy",), (0, 1): ("copy",), (1, 0): (), (1, 1): ()}}
     for en in c13.FILETYPES:
-        ctx.check(en in cases, "T6-filetype-exhaustive", "backup:" + en, bi.name, bi.loc,
-                  "%s handled by backup" % en, "file type %s is not handled by backup" % en)
+        tv = int(P.enums[en]["v"])
+        for (have_live, is_live), w in sorted(want[en].items()):
+            env = {"type": tv, "(live == 0)": int(not have_live), "(live != 0)": int(have_live), "rc": 0, "(rc == 0)": 1, "(rc != 0)": 0}
+
+            def val(t, env=env, is_live=is_live):
+                kk = key(t)
+                if kk in env:
+                    return env[kk]
+                if t.get("k") == "call" and t.get("f") in ("rb_set64_has", "ldb_rb_set64_has"):
+                    return is_live
+                if t.get("k") == "call" and t.get("f") in ("ldb_copy_file", "ldb_link_file"):
+                    return 0
+                if t.get("k") == "call" and t.get("f") == "ldb_join":
+                    return 1
+                return None
+            got = {one(x) for x in sequences_under(bi, tok, val, start=lambda e: e is first_join)}
+            ctx.check(got == {w}, "T6-filetype-exhaustive", "backup:%s:%s" % (en, "live-set,%s" % ("in" if is_live else "out") if have_live else "closed-db"),
+                      bi.name, bi.loc, "%s -> %s" % (en, w or "skipped"),
+                      "backup of a %s file (%s) performs %s, expected %s" % (en, "live set given" if have_live else "no live set", sorted(got), w),
+                      subject="backup:" + en)
     g = xgraph(P, bi)
     for b, i, e in find_calls(bi, "ldb_link_file"):
         atoms = g.must_at(b, i)
